@@ -660,6 +660,388 @@ func c22RegexGrammar(r *rand.Rand) (text, pattern string, opts lex.CharsetOption
 	return sb.String(), pattern, opts
 }
 
+// ---- chaos grammars: syntactically valid, semantically arbitrary -------------------------------------
+
+type c22Chaos struct {
+	r        *rand.Rand
+	terms    []string // quoted or plain terminal names
+	nonterms []string
+	flags    []string
+	sets     []string
+	typed    bool
+	lang     string
+	tame     bool              // avoid constructs that are certain to be rejected
+	ntParam  map[string]string // nonterminal -> its template flag ("" = none)
+	cur      string            // nonterminal being rendered
+	hasError bool
+}
+
+func (g *c22Chaos) pick(l []string) string {
+	if len(l) == 0 {
+		return "a"
+	}
+	return l[g.r.Intn(len(l))]
+}
+
+func (g *c22Chaos) p(pct int) bool { return g.r.Intn(100) < pct }
+
+func (g *c22Chaos) isIdent(t string) bool { return !strings.HasPrefix(t, "'") }
+
+func (g *c22Chaos) symref(allowArgs bool) string {
+	r := g.r
+	x := r.Intn(100)
+	if g.tame && x >= 90 {
+		x = r.Intn(90)
+	}
+	switch {
+	case x < 45:
+		return g.pick(g.terms)
+	case x < 90:
+		n := g.pick(g.nonterms)
+		name := n
+		if f := g.ntParam[n]; allowArgs && f != "" && (g.tame || g.p(70)) {
+			opts := []string{"<+" + f + ">", "<~" + f + ">"}
+			if g.ntParam[g.cur] == f {
+				opts = append(opts, "<"+f+">", "")
+			}
+			n += opts[r.Intn(len(opts))]
+		} else if allowArgs && !g.tame && len(g.flags) > 0 && g.p(20) {
+			f := g.pick(g.flags)
+			n += []string{"<+" + f + ">", "<~" + f + ">", "<" + f + ">", "<" + f + ": true>", "<" + f + ": " + g.pick(g.flags) + ">", "<+" + f + ", ~" + g.pick(g.flags) + ">", "<>"}[r.Intn(7)]
+		}
+		if n == name && g.p(6) {
+			n += "opt"
+		}
+		return n
+	case x < 94:
+		return "undefined_" + strconv.Itoa(r.Intn(3))
+	case x < 96:
+		return "error"
+	case x < 98:
+		return g.pick(g.sets)
+	default:
+		t := g.pick(g.terms)
+		if g.isIdent(t) {
+			return t + "opt"
+		}
+		return t
+	}
+}
+
+func (g *c22Chaos) setExpr(depth int) string {
+	r := g.r
+	if depth > 2 || g.p(45) {
+		op := []string{"", "", "", "first ", "last ", "follow ", "precede ", "bogus "}[r.Intn(8)]
+		if g.tame && op == "bogus " {
+			op = ""
+		}
+		switch r.Intn(6) {
+		case 0:
+			return op + g.pick(g.nonterms)
+		case 1:
+			return g.pick(g.sets)
+		case 2:
+			return "eoi"
+		default:
+			return op + g.pick(g.terms)
+		}
+	}
+	switch r.Intn(4) {
+	case 0:
+		return "~" + g.setExpr(depth+1)
+	case 1:
+		return "(" + g.setExpr(depth+1) + " | " + g.setExpr(depth+1) + ")"
+	case 2:
+		return g.setExpr(depth+1) + " & " + g.setExpr(depth+1)
+	default:
+		return "~(" + g.setExpr(depth+1) + ")"
+	}
+}
+
+func (g *c22Chaos) command() string {
+	if !g.typed {
+		return []string{"{ }", "{ /* c */ }", "{ foo(${first()}) }", "{ $$ = nil }", "{ \"}\" }", "{ '{' }"}[g.r.Intn(6)]
+	}
+	return []string{"{ $$ = $1 }", "{ $$ = $0 }", "{ $$ = $x }", "{ $$ = ${x.offset} + $2 }", "{ $$ = $9 }", "{ @$ = @1 }", "{ $$ = $x#1 }", "{ }", "{ $$ = ${self[0]} }", "{ $$ = $a + $b }"}[g.r.Intn(10)]
+}
+
+// primary: symref | ( rules ) | ( parts separator refs )+* | primary+* | $( rules ) | set(...)
+func (g *c22Chaos) primary(depth int) string {
+	r := g.r
+	if depth > 3 {
+		return g.symref(true)
+	}
+	switch x := r.Intn(100); {
+	case x < 52:
+		return g.symref(true)
+	case x < 64:
+		return g.primary(depth+1) + []string{"*", "+"}[r.Intn(2)]
+	case x < 76:
+		return "(" + g.rules(depth+1, 1+r.Intn(3)) + ")"
+	case x < 88:
+		sep := g.pick(g.terms)
+		if g.p(15) {
+			sep = g.symref(false) + " " + g.pick(g.terms)
+		}
+		return "(" + g.seq(depth+1) + " separator " + sep + ")" + []string{"*", "+"}[r.Intn(2)]
+	case x < 97:
+		return "set(" + g.setExpr(0) + ")"
+	default:
+		if g.tame {
+			return g.symref(true)
+		}
+		return "$(" + g.rules(depth+1, 1) + ")"
+	}
+}
+
+func (g *c22Chaos) part(depth int) string {
+	r := g.r
+	switch x := r.Intn(100); {
+	case x < 9:
+		return g.command()
+	case x < 13:
+		return "." + []string{"m1", "m2", "greedy", "lr0", "recoveryScope"}[r.Intn(5)]
+	case x < 18:
+		n := 1 + r.Intn(2)
+		var ps []string
+		for i := 0; i < n; i++ {
+			ref := g.pick(g.nonterms)
+			if !g.tame && g.p(15) {
+				ref = g.symref(false)
+			}
+			ps = append(ps, []string{"", "!"}[r.Intn(2)]+ref)
+		}
+		return "(?= " + strings.Join(ps, " & ") + ")"
+	}
+	out := g.primary(depth)
+	if g.p(10) {
+		out += "[" + []string{"x", "a", "b", "name", "x"}[r.Intn(5)] + "]"
+	}
+	if !g.tame && g.p(2) {
+		out += " as " + g.symref(false)
+	}
+	if g.p(12) {
+		out += "?"
+	}
+	if g.p(10) {
+		out = []string{"x", "a", "b", "left", "y"}[r.Intn(5)] + []string{"=", "+="}[r.Intn(2)] + out
+	}
+	return out
+}
+
+func (g *c22Chaos) seq(depth int) string {
+	n := g.r.Intn(5)
+	if depth > 0 && n == 0 {
+		n = 1
+	}
+	var ps []string
+	for i := 0; i < n; i++ {
+		ps = append(ps, g.part(depth))
+	}
+	return strings.Join(ps, " ")
+}
+
+func (g *c22Chaos) rules(depth, n int) string {
+	var rs []string
+	for i := 0; i < n; i++ {
+		var sb strings.Builder
+		if f := g.ntParam[g.cur]; depth == 0 && f != "" && g.p(40) || !g.tame && len(g.flags) > 0 && g.p(8) {
+			if f == "" || !g.tame && g.p(30) {
+				f = g.pick(g.flags)
+			}
+			sb.WriteString([]string{"[" + f + "] ", "[!" + f + "] ", "[" + f + " && !" + g.pick(g.flags) + "] ", "[" + f + " == true] ", "[" + f + " || " + g.pick(g.flags) + "] ", "[" + f + " != false] ", "[" + f + " == 5] "}[g.r.Intn(7)])
+		}
+		body := g.seq(depth)
+		if body == "" && g.p(50) {
+			body = "%empty"
+		}
+		sb.WriteString(body)
+		if depth == 0 && g.p(8) {
+			sb.WriteString(" %prec " + g.pick(g.terms))
+		}
+		if g.p(25) {
+			sb.WriteString(" -> " + []string{"NodeA", "NodeB", "NodeC", "Cat", "NodeA/flagX", "NodeB/flagX,flagY", "NodeA as Cat", "Cat as Cat"}[g.r.Intn(8)])
+		}
+		rs = append(rs, sb.String())
+	}
+	return strings.Join(rs, " | ")
+}
+
+// c22ChaosGrammar renders a random grammar that (usually) passes the tm parser and exercises the loader,
+// templates, lookaheads, sets, lists, mid-rule actions, types, precedence and table options.
+func c22ChaosGrammar(r *rand.Rand, name string) string {
+	g := &c22Chaos{r: r, lang: []string{"go", "go", "go", "cc", "ts"}[r.Intn(5)], ntParam: map[string]string{}}
+	g.tame = g.p(60)
+	g.typed = g.lang != "ts" && g.p(50)
+	var sb strings.Builder
+	fmt.Fprintf(&sb, "language %s(%s);\n\n", name, g.lang)
+	if g.lang == "go" {
+		fmt.Fprintf(&sb, "package = \"x/%s\"\n", name)
+	}
+	if g.lang == "cc" {
+		fmt.Fprintf(&sb, "namespace = %q\n", name)
+	}
+	for _, o := range []string{"eventBased", "eventFields", "eventAST", "genSelector", "optimizeTables", "defaultReduce", "minimizeDFA", "writeBison", "recursiveLookaheads", "cancellable",
+		"tokenStream", "fixWhitespace", "scanBytes", "caseInsensitive", "nonBacktracking", "noEmptyRules", "debugParser", "tokenLine", "tokenColumn", "aliasIncludesOptSuffix", "genParser", "flexMode", "trackReduces", "variantStackEntry"} {
+		if g.p(12) {
+			fmt.Fprintf(&sb, "%s = %v\n", o, g.p(75))
+		}
+	}
+	if g.p(10) {
+		fmt.Fprintf(&sb, "maxLookahead = %d\n", r.Intn(4))
+	}
+	if g.p(8) {
+		fmt.Fprintf(&sb, "expansionLimit = %d\n", []int{0, 1, 3, 100}[r.Intn(4)])
+	}
+	if g.p(8) {
+		fmt.Fprintf(&sb, "disableSyntax = [%q]\n", []string{"NestedChoice", "Templates", "List", "Optional", "Lookahead", "Set", "Arrow", "Command", "Assign"}[r.Intn(9)])
+	}
+	if g.p(10) {
+		sb.WriteString("extraTypes = [\"Extra\", \"Extra2 -> Cat\"]\n")
+	}
+	if g.p(8) {
+		fmt.Fprintf(&sb, "optInstantiationSuffix = %q\n", []string{"_opt", "", "Opt", "opt"}[r.Intn(4)])
+	}
+	sb.WriteString("\n:: lexer\n\n")
+	if g.p(15) {
+		sb.WriteString("%s st1, st2;\n%x st3;\n")
+	}
+	nt := 2 + r.Intn(4)
+	for i := 0; i < nt; i++ {
+		ch := string(rune('a' + i))
+		tname := "'" + ch + "'"
+		if g.p(25) {
+			tname = "T" + ch
+		}
+		g.terms = append(g.terms, tname)
+		typ := ""
+		if g.typed && g.p(40) {
+			typ = " {int}"
+		}
+		pre := ""
+		if g.p(6) {
+			pre = []string{"<st1> ", "<*> ", "<st1, st3> ", "<nope> "}[r.Intn(4)]
+		}
+		fmt.Fprintf(&sb, "%s%s%s: /%s/", pre, tname, typ, ch)
+		if g.p(10) {
+			sb.WriteString([]string{" -1", " 2", " (space)", " (class)", " { $$ = 1 }", " (space)"}[r.Intn(6)])
+		}
+		sb.WriteString("\n")
+	}
+	if g.p(40) {
+		sb.WriteString("id: /[a-z][a-z0-9]+/ (class)\n'kw': /kw/\n")
+		g.terms = append(g.terms, "id", "'kw'")
+	}
+	if g.p(50) {
+		sb.WriteString("ws: /[ \\n]+/ (space)\n")
+	}
+	if g.p(40) {
+		sb.WriteString("error:\n")
+		g.terms = append(g.terms, "error")
+	}
+	if g.p(25) {
+		sb.WriteString("invalid_token:\n")
+	}
+	if g.p(10) {
+		sb.WriteString("eoi: /\\$/\n")
+	}
+	if g.p(10) {
+		sb.WriteString("<st3> {\n  'q': /q/\n}\n")
+	}
+
+	if g.p(4) {
+		return sb.String() // lexer only
+	}
+	if g.lang == "go" && g.p(25) {
+		fmt.Fprintf(&sb, "\n:: parser lalr(%d)\n\n", []int{1, 2, 2, 3, 8, 9}[r.Intn(6)])
+	} else {
+		sb.WriteString("\n:: parser\n\n")
+	}
+	nn := 2 + r.Intn(5)
+	for i := 0; i < nn; i++ {
+		g.nonterms = append(g.nonterms, fmt.Sprintf("N%d", i))
+	}
+	if g.p(45) {
+		nf := 1 + r.Intn(2)
+		for i := 0; i < nf; i++ {
+			f := fmt.Sprintf("F%d", i)
+			g.flags = append(g.flags, f)
+			mod, def := []string{"", "", "", "lookahead "}[r.Intn(4)], []string{"", " = true", " = false", " = 5", " = \"s\""}[r.Intn(5)]
+			if g.tame {
+				mod, def = "", []string{"", " = true", " = false"}[r.Intn(3)]
+			}
+			fmt.Fprintf(&sb, "%%%sflag %s%s;\n", mod, f, def)
+		}
+	}
+	g.sets = []string{"s0"}
+	if g.p(35) {
+		fmt.Fprintf(&sb, "%%generate s0 = set(%s);\n", g.setExpr(0))
+	}
+	if g.p(10) {
+		fmt.Fprintf(&sb, "%%assert %s set(%s);\n", []string{"empty", "nonempty"}[r.Intn(2)], g.setExpr(0))
+	}
+	if g.p(85) {
+		var ins []string
+		for i, n := 0, 1+r.Intn(2); i < n; i++ {
+			in := g.pick(g.nonterms)
+			if g.p(8) {
+				in = g.pick(g.terms)
+			}
+			if g.p(25) {
+				in += " no-eoi"
+			}
+			ins = append(ins, in)
+		}
+		fmt.Fprintf(&sb, "%%input %s;\n", strings.Join(ins, ", "))
+	}
+	if g.p(30) {
+		fmt.Fprintf(&sb, "%%%s %s %s;\n", []string{"left", "right", "nonassoc"}[r.Intn(3)], g.pick(g.terms), g.pick(g.terms))
+	}
+	if g.p(12) {
+		fmt.Fprintf(&sb, "%%interface %s;\n", []string{"Cat", "NodeA", "Cat, Cat2"}[r.Intn(3)])
+	}
+	if g.p(8) {
+		fmt.Fprintf(&sb, "%%inject %s -> %s;\n", g.pick(g.terms), []string{"NodeA", "Tok", "Tok/flagX"}[r.Intn(3)])
+	}
+	if g.p(10) {
+		fmt.Fprintf(&sb, "%%expect %d;\n", r.Intn(3))
+	}
+	if g.p(6) {
+		fmt.Fprintf(&sb, "%%expect-rr %d;\n", r.Intn(3))
+	}
+	sb.WriteString("\n")
+	for _, n := range g.nonterms {
+		if len(g.flags) > 0 && g.p(35) {
+			g.ntParam[n] = g.pick(g.flags)
+		}
+	}
+	for _, n := range g.nonterms {
+		g.cur = n
+		head := n
+		kw := ""
+		if !g.tame && g.p(5) {
+			kw = []string{"inline ", "extend "}[r.Intn(2)]
+			head = kw + head
+		}
+		if f := g.ntParam[n]; f != "" && kw != "extend " {
+			head += "<" + f + ">"
+		} else if !g.tame && g.p(6) && kw != "extend " {
+			head += "<flag X" + []string{"", " = true", " = false"}[r.Intn(3)] + ">"
+		}
+		if g.typed && g.p(50) && kw == "" {
+			head += " {int}"
+		}
+		if g.p(30) {
+			head += " -> " + []string{"NodeA", "NodeB", "Cat", "NodeC/flagX"}[r.Intn(4)]
+		}
+		fmt.Fprintf(&sb, "%s :\n    %s ;\n\n", head, strings.ReplaceAll(g.rules(0, 1+r.Intn(4)), " | ", "\n  | "))
+	}
+	if g.p(5) {
+		sb.WriteString("%%\n\n{{define \"foo\"}}bar{{end}}\n")
+	}
+	return sb.String()
+}
+
 // ---- known crashes --------------------------------------------------------------------------------
 
 type c22Known struct {
@@ -727,7 +1109,7 @@ func c22(c *Ctx) {
 	}
 	c.Rule = "inputs for the real compiler.Compile (+ gen.Generate when it compiles), run in child processes with a per-input time limit: the 5 shipped grammars, the grammars of compiler/testdata (error markers removed), " +
 		"generated grammars (RandGram rendered by Gram.TM with random table options / lalr(k) / precedence / recovery, tmArrows with nested arrows and optionals, the feature grammars of c18RandGrammar: class rules, aliases, lists with separators, optionals, nested choices with mid-rule actions, lalr(2), state markers, token sets, template flags, go/ts/cc), " +
-		"small grammars with option lines of wrong types, grammars with one broken regular expression at a random position (maperr: the harness computes the lex.ParseError with the real lex.ParseRegexp and compares the reported range with the model's translation), and MUTATIONS of all of these (1 operator 50%, 2 30%, 3-6 20%): " +
+		"CHAOS grammars (syntactically valid, semantically arbitrary: random options, start conditions, typed terminals, template flags with arguments and predicates, lookaheads, named and inline sets with first/last/follow/precede and complements, lists with separators, nested choices, optionals, aliases, assignments, mid-rule and final commands, state markers, arrows with flags and selectors, %prec, %inject, %assert, %expect, lalr(k), undefined references), small grammars with option lines of wrong types, grammars with one broken regular expression at a random position (maperr: the harness computes the lex.ParseError with the real lex.ParseRegexp and compares the reported range with the model's translation), and MUTATIONS of all of these (1 operator 50%, 2 30%, 3-6 20%): " +
 		"token deletion / duplication / swap / replacement by another token, byte flips, truncation, insertion of tm punctuation and keywords, unbalanced brackets / quotes / regexps, non-UTF-8 and control bytes, very long lines and deep nesting, option lines with wrong types, line surgery, target language change, wrapping a token into a quantifier / list / set / lookahead / alias, renamed references, newline surgery. " +
 		"Non-trivial = the input got past the tm parser (compiled, or returned located diagnostics, or crashed); distinct by text. A tm.SyntaxError outcome is trivial for the compiler but its range and line are still checked. " +
 		"Known crashes are probed on one fixed witness each at start-up and reported through that witness only while the real code still crashes; crashes of the random stream with the same signature (message + frame) are then counted as known-class and not reported again."
@@ -740,6 +1122,20 @@ func c22(c *Ctx) {
 	}
 	if nWorkers > 8 {
 		nWorkers = 8
+	}
+
+	// debugging aid: C22_ONLY=<file>[,<file>…] runs just these inputs through a child and prints the results
+	if only := os.Getenv("C22_ONLY"); only != "" {
+		w := &c22Worker{self: self}
+		for _, f := range strings.Split(only, ",") {
+			b, err := os.ReadFile(f)
+			must(err)
+			res := w.run(0, c22Path, string(b), 300*time.Second)
+			j, _ := json.Marshal(res)
+			fmt.Printf("%s: %s\n", f, j)
+		}
+		w.stop()
+		return
 	}
 
 	// ---- crash-site inventory of the tree under test
@@ -848,6 +1244,11 @@ func c22(c *Ctx) {
 		add(c22Input{Name: s.name, Kind: "feature", Text: text})
 		mutants("mut-feature", s, 4)
 	}
+	for i, n := 0, c.N(220, 2500); i < n; i++ {
+		s := seed{fmt.Sprintf("chaos%d", i), c22ChaosGrammar(c.Rng, fmt.Sprintf("c%d", i)), false}
+		add(c22Input{Name: s.name, Kind: "chaos", Text: s.text})
+		mutants("mut-chaos", s, 1)
+	}
 	for i, n := 0, c.N(50, 500); i < n; i++ {
 		add(c22Input{Name: fmt.Sprintf("opts%d", i), Kind: "options", Text: c22OptionGrammar(c.Rng)})
 	}
@@ -904,6 +1305,14 @@ func c22(c *Ctx) {
 	wg.Wait()
 	c.Extra["child_starts"] = restarts
 	c.Extra["inputs"] = len(inputs)
+
+	if d := os.Getenv("C22_DUMP"); d != "" { // debugging aid: every input with its outcome
+		os.MkdirAll(d, 0o755)
+		for i, in := range inputs {
+			j, _ := json.Marshal(results[i])
+			os.WriteFile(filepath.Join(d, fmt.Sprintf("%05d-%s-%s.tm", i, in.Kind, results[i].Kind)), []byte(in.Text+"\n\n### "+in.Name+"\n### "+string(j)+"\n"), 0o644)
+		}
+	}
 
 	// ---- evaluate
 	type crashInfo struct {
